@@ -33,7 +33,7 @@ ASSUMPTIONS = [
     "the logs are static until the positions have settled, so 'what the broker replied' equals the log bounds at start",
     "an out-of-range committed offset is one below the log start or above the log end (HW); offsets in (LSO, HW] are valid",
     "read_committed consumers are only run against brokers with ListOffsets >= v2 and Fetch >= v4",
-    "settle bound = 8 x request_timeout + 60 x retry_backoff of virtual time; faults stop at 75% of it",
+    "settle bound B = 8 x request_timeout + 60 x retry_backoff of virtual time; injected faults stop 0.75 B after start(), positions are read a full B after that (bounded progress once faults cease)",
 ]
 REQUIRED_COUNTERS = ["histories_judged", "partitions_judged", "start_from_committed", "reset_earliest", "reset_latest",
                      "policy_none_errors", "out_of_range_committed", "seek_wins_checked", "seek_while_lookup_in_flight",
